@@ -56,6 +56,10 @@ def snaprace(R, binary):
     R.oblige("snaprace: every snapshot taken by the real maybeTriggerSnapshot holds exactly the commands of the entries up to its index (%d scenarios, %d snapshots, %d batches "
              "without commands, state machine delayed up to 8 ms)" % (len(reps), sum(r.get("snapshots", 0) for r in reps), sum(r.get("batches_without_commands", 0) for r in reps)),
              "oracle", rc == 0 and len(reps) == n and not bad, ("%d scenarios failed; " % len(bad)) + se[-300:] if (bad or rc != 0) else "")
+    if (rc != 0 or len(reps) != n) and not bad:
+        R.violation("snaprace-crash", dict(kind="impl-violates-spec", engine="snaprace", args=["snaprace", str(R.seed), str(n)],
+                                           summary=("the snaprace engine's process ended with rc %d after %d of %d scenarios: %s" % (rc, len(reps), n, se[-600:])).replace("\n", " | "),
+                                           explanation="the real publishEntries / maybeTriggerSnapshot / saveSnap crashed or wedged the process"))
     R.add_cases(sum(r.get("batches", 0) for r in reps), sum(1 for r in reps if r.get("result") == "ok" and r.get("snapshots", 0) > 0))
     R.suites.append(dict(name="snaprace", scenarios=len(reps), failed=len(bad), seconds=round(dt, 1)))
     for r in bad[:2]:
